@@ -113,6 +113,7 @@ type Prog struct {
 	DeferClosed  map[string]bool
 	Closed       map[string]bool
 	FieldUsers   map[string][]string // "pkg.Struct.field" -> "func:line:how" (only for tracked fields)
+	aliasOf      map[*Func]map[types.Object]localAlias
 	TrackFields  map[string]bool
 	IfaceCallers map[string][]string // interface method full name -> functions calling it (tracked names only)
 	IfaceMethods map[string]bool     // names of methods that are called through an interface somewhere
@@ -412,14 +413,22 @@ type fnBuilder struct {
 	fn      *Func
 	info    *types.Info
 	cur     *[]Event
-	comm    map[ast.Stmt]*selectInfo // select comm statement -> its select
-	commRcv map[*ast.UnaryExpr]bool  // receive expressions that are select alternatives
-	ctorVar map[string]string        // local ident -> struct name it was freshly allocated as
+	comm    map[ast.Stmt]*selectInfo    // select comm statement -> its select
+	commRcv map[*ast.UnaryExpr]bool     // receive expressions that are select alternatives
+	ctorVar map[string]string           // local ident -> struct name it was freshly allocated as
+	alias   map[types.Object]localAlias // local variable bound to the (map / slice) value or element of a guarded field
 }
 
+// localAlias: `chs := X.f[k]` / `m := X.f` / `for _, v := range X.f` where f is a guarded field and the
+// local has map or slice type: the local names mutable storage that belongs to the guarded
+// field, so indexing it is an access to that field - with whatever locks are held THEN.
+type localAlias struct{ sname, field, base string }
+
 func (p *Prog) build(fn *Func) {
-	fb := &fnBuilder{p: p, fn: fn, info: fn.Pkg.TypesInfo, comm: map[ast.Stmt]*selectInfo{}, commRcv: map[*ast.UnaryExpr]bool{}, ctorVar: map[string]string{}}
+	fb := &fnBuilder{p: p, fn: fn, info: fn.Pkg.TypesInfo, comm: map[ast.Stmt]*selectInfo{}, commRcv: map[*ast.UnaryExpr]bool{}, ctorVar: map[string]string{},
+		alias: map[types.Object]localAlias{}}
 	fb.prepass()
+	fb.findAliases()
 	g := cfg.New(fn.Body, fb.mayReturn)
 	fn.Nodes = make([]Node, len(g.Blocks))
 	for i, b := range g.Blocks {
@@ -854,6 +863,11 @@ func (fb *fnBuilder) visit(n ast.Node) {
 	case *ast.SelectorExpr:
 		fb.selector(x, "R")
 		return
+	case *ast.IndexExpr:
+		if fb.aliasAccess(x.X, "R", x.Pos()) {
+			fb.visit(x.Index)
+			return
+		}
 	case *ast.KeyValueExpr:
 		// struct literal key: a field name, not an access; map literal key: an expression
 		if id, ok := x.Key.(*ast.Ident); ok {
@@ -947,7 +961,9 @@ func (fb *fnBuilder) lhs(e ast.Expr) {
 	case *ast.SelectorExpr:
 		fb.selector(x, "W")
 	case *ast.IndexExpr:
-		fb.lhsBase(x.X)
+		if !fb.aliasAccess(x.X, "W", x.Pos()) {
+			fb.lhsBase(x.X)
+		}
 		fb.visit(x.Index)
 	case *ast.StarExpr:
 		fb.visit(x.X)
@@ -962,7 +978,9 @@ func (fb *fnBuilder) lhsBase(e ast.Expr) {
 	case *ast.SelectorExpr:
 		fb.selector(x, "W")
 	case *ast.IndexExpr:
-		fb.lhsBase(x.X)
+		if !fb.aliasAccess(x.X, "W", x.Pos()) {
+			fb.lhsBase(x.X)
+		}
 		fb.visit(x.Index)
 	default:
 		fb.visit(e)
@@ -1018,6 +1036,123 @@ func (fb *fnBuilder) selector(x *ast.SelectorExpr, kind string) {
 		}
 	}
 	fb.visit(x.X)
+}
+
+// guardedField reports whether x selects a field of the guard map (struct name, field, base path).
+func (fb *fnBuilder) guardedField(x *ast.SelectorExpr) (sname, fname, base string, ok bool) {
+	sel := fb.info.Selections[x]
+	if sel == nil || sel.Kind() != types.FieldVal {
+		return
+	}
+	t := sel.Recv()
+	idx := sel.Index()
+	base, okb := fb.render(x.X)
+	for i, k := range idx {
+		st, isSt := deref(t).Underlying().(*types.Struct)
+		if !isSt {
+			return "", "", "", false
+		}
+		f := st.Field(k)
+		if i == len(idx)-1 {
+			nt, _ := deref(t).(*types.Named)
+			if nt == nil || nt.Obj().Pkg() == nil {
+				return "", "", "", false
+			}
+			sname = fb.p.relPkg(nt.Obj().Pkg().Path()) + "." + nt.Obj().Name()
+			if _, g := fb.p.Guards[sname+"."+f.Name()]; g && okb {
+				return sname, f.Name(), base, true
+			}
+			return "", "", "", false
+		}
+		base = base + "." + f.Name()
+		t = f.Type()
+	}
+	return "", "", "", false
+}
+
+// findAliases records the locals of this function (nested literals included: they capture them)
+// that are bound to the value or to an element of a guarded field and have map or slice type.
+func (fb *fnBuilder) findAliases() {
+	if len(fb.p.Guards) == 0 || fb.fn.Body == nil {
+		return
+	}
+	isContainer := func(id *ast.Ident) bool {
+		o := fb.info.ObjectOf(id)
+		if o == nil || o.Type() == nil {
+			return false
+		}
+		switch o.Type().Underlying().(type) {
+		case *types.Map, *types.Slice:
+			return true
+		}
+		return false
+	}
+	source := func(e ast.Expr) (localAlias, bool) {
+		e = unparen(e)
+		if ix, ok := e.(*ast.IndexExpr); ok {
+			e = unparen(ix.X)
+		}
+		if se, ok := e.(*ast.SelectorExpr); ok {
+			if sn, f, b, ok := fb.guardedField(se); ok {
+				return localAlias{sn, f, b}, true
+			}
+		}
+		return localAlias{}, false
+	}
+	bind := func(l ast.Expr, r ast.Expr) {
+		id, ok := l.(*ast.Ident)
+		if !ok || id.Name == "_" || !isContainer(id) {
+			return
+		}
+		if a, ok := source(r); ok {
+			fb.alias[fb.info.ObjectOf(id)] = a
+		}
+	}
+	ast.Inspect(fb.fn.Body, func(n ast.Node) bool {
+		switch x := n.(type) {
+		case *ast.AssignStmt:
+			if len(x.Lhs) == len(x.Rhs) {
+				for i := range x.Lhs {
+					bind(x.Lhs[i], x.Rhs[i])
+				}
+			} else if len(x.Rhs) == 1 && len(x.Lhs) == 2 { // v, ok := X.f[k]
+				bind(x.Lhs[0], x.Rhs[0])
+			}
+		case *ast.RangeStmt:
+			if x.Value != nil {
+				bind(x.Value, x.X)
+			}
+		}
+		return true
+	})
+	// the aliases are visible in the literals nested in this function too
+	if fb.fn.Parent != nil {
+		if pa := fb.p.aliasOf[fb.fn.Parent]; pa != nil {
+			for o, a := range pa {
+				if _, ok := fb.alias[o]; !ok {
+					fb.alias[o] = a
+				}
+			}
+		}
+	}
+	if fb.p.aliasOf == nil {
+		fb.p.aliasOf = map[*Func]map[types.Object]localAlias{}
+	}
+	fb.p.aliasOf[fb.fn] = fb.alias
+}
+
+// aliasAccess emits the access of `local[k]` when local is an alias of a guarded field.
+func (fb *fnBuilder) aliasAccess(e ast.Expr, kind string, pos token.Pos) bool {
+	id, ok := unparen(e).(*ast.Ident)
+	if !ok {
+		return false
+	}
+	a, ok := fb.alias[fb.info.ObjectOf(id)]
+	if !ok {
+		return false
+	}
+	fb.emit(Event{Kind: "Access", Struct: a.sname, Field: a.field, AKind: kind, Base: a.base, Pos: pos})
+	return true
 }
 
 func (fb *fnBuilder) fieldAccess(x *ast.SelectorExpr, sel *types.Selection, kind string) {
